@@ -145,6 +145,11 @@ static void sub_amg() {
         boost::property_tree::ptree p; p.put("coarsening.type", co); p.put("relax.type", re); p.put("coarse_enough", (int)r.range(5, 25));
         size_t levels = 0;
         roworder(c, std::string("amg<") + co + "," + re + ">", A, Ash, [&](const Csr<double> &M) { std::unique_ptr<RAMG> a(new RAMG(M.tie(), p)); std::ostringstream os; os << *a; std::string s = os.str(); size_t pos = s.find("Number of levels:"); if (pos != std::string::npos) levels = std::max<size_t>(levels, atoi(s.c_str() + pos + 17)); return a; }, r);
+        // rebuild(): the hierarchy is built once from the sorted matrix (allow_rebuild) and then rebuilt with the matrix under test
+        // (a mildly perturbed copy, sorted resp. shuffled): "built from a matrix whose row entries are listed in arbitrary order"
+        // also covers the matrix handed to rebuild().  (added after a seeded change dropped the sort in rebuild(const Matrix&))
+        { boost::property_tree::ptree pr = p; pr.put("allow_rebuild", true); Csr<double> Ap = A, Apsh = Ash; for (auto &v : Ap.val) v *= 1.25; for (auto &v : Apsh.val) v *= 1.25;
+          roworder(c, std::string("amg.rebuild<") + co + "," + re + ">", Ap, Apsh, [&](const Csr<double> &M) { std::unique_ptr<RAMG> a(new RAMG(A.tie(), pr)); a->rebuild(M.tie()); return a; }, r); }
         // make_solver: the bundled system matrix must be the same operator, the solve must return a solution of the original system
         { typedef make_solver<RAMG, solver::fgmres<B>> S; boost::property_tree::ptree sp; sp.put_child("precond", p); sp.put("solver.maxiter", 200);
           std::vector<double> f = vf::random_vector(A.n, r); bool ref_ok = true, ref_conv = false;
